@@ -1,11 +1,14 @@
 #!/bin/bash
-# usage: tools/try_seed.sh <patch.diff> <tier> <ID> [<ID>...]   — applies the patch to /repo, runs the checks, always reverts
-patch=$1; tier=$2; shift 2
-cd /repo || exit 9
-if ! git diff --quiet; then echo "/repo has uncommitted changes; refusing"; exit 9; fi
-trap 'git -C /repo checkout -- . ' EXIT
-git apply --whitespace=nowarn "$patch" || { echo "patch does not apply"; exit 9; }
+# usage: tools/try_seed.sh <patch.diff> <tier> <ID> [<ID>...]
+# Applies the patch to a SCRATCH WORKTREE of /repo's HEAD (never to /repo itself, so it can run next to anything else),
+# runs the checks against it (FORSYS_REPO), removes the worktree. Evidence files are not touched.
+patch=$(realpath "$1"); tier=$2; shift 2
+wt=$(mktemp -d /tmp/tryseed.XXXXXX)
+rmdir "$wt"
+git -C /repo worktree add -q --detach "$wt" HEAD || exit 9
+trap 'git -C /repo worktree remove --force "$wt" >/dev/null 2>&1' EXIT
+if ! git -C "$wt" apply --whitespace=nowarn "$patch"; then echo "patch does not apply"; exit 9; fi
 for id in "$@"; do
-  out=$(cd /verif && VERIF_KEEP_EVIDENCE=1 ./check $id $tier 2>&1); rc=$?
+  out=$(cd /verif && FORSYS_REPO="$wt" VERIF_KEEP_EVIDENCE=1 ./check $id $tier 2>&1); rc=$?
   echo "== $id $tier rc=$rc"; echo "$out" | grep -E "VIOLATION|what:|KNOWN-FINDING|HARNESS" | head -8
 done
